@@ -8,63 +8,64 @@ open Scrapli.Gen.Loss
 
 /-- the consequences of `mapTotal t` that the proofs use -/
 structure Good (t : Transport) : Prop where
-  fresh_ok : ∀ m o, domain t m o = true → (errMap t m o).ok = true
-  fresh_readOK : ∀ o, domain t .read o = true → (errMap t .read o).readOK = true
-  fresh_read : ∀ o, domain t .read o = true → neverData t o = true → (errMap t .read o).readLossOK = true
-  fresh_busy : ∀ o, domain t .read o = true → errMap t .read o = .retEmptyBusy → setsLoss t o = true
+  fresh_ok : ∀ c m o, domain t m o = true → (errMapC t c m o).ok = true
+  fresh_readOK : ∀ c o, domain t .read o = true → (errMapC t c .read o).readOK = true
+  fresh_read : ∀ c o, domain t .read o = true → neverData t o = true → (errMapC t c .read o).readLossOK = true
+  fresh_busy : ∀ c o, domain t .read o = true → errMapC t c .read o = .retEmptyBusy → setsLoss t o = true
   post_ne : ∀ lm lo, (lm = .read ∨ lm = .write) → domain t lm lo = true → setsLoss t lo = true →
     postRead t lm lo ≠ []
-  post_read : ∀ lm lo o, (lm = .read ∨ lm = .write) → domain t lm lo = true → setsLoss t lo = true →
+  post_read : ∀ c lm lo o, (lm = .read ∨ lm = .write) → domain t lm lo = true → setsLoss t lo = true →
     o ∈ postRead t lm lo →
-    neverData t o = true ∧ (after2 t lm lo .read o).ok = true ∧ (after2 t lm lo .read o).readLossOK' = true
-  post_write : ∀ lm lo o, (lm = .read ∨ lm = .write) → domain t lm lo = true → setsLoss t lo = true →
-    domain t .write o = true → (after2 t lm lo .write o).ok = true
+    neverData t o = true ∧ (after2 t c lm lo .read o).ok = true ∧ (after2 t c lm lo .read o).readLossOK' = true
+  post_write : ∀ c lm lo o, (lm = .read ∨ lm = .write) → domain t lm lo = true → setsLoss t lo = true →
+    domain t .write o = true → (after2 t c lm lo .write o).ok = true
   none_read : errMap t .read .none = .raiseS .notOpened
   none_write : errMap t .write .none = .raiseS .notOpened
   none_alive : errMap t .isalive .none = .retFalse
-  write_data : (errMap t .write .data).isRaise = false
+  write_data : ∀ c, (errMapC t c .write .data).isRaise = false
 
 theorem good_of_total {t : Transport} (h : mapTotal t) : Good t := by
   unfold mapTotal mapTotalB at h
   simp only [Bool.and_eq_true, List.all_eq_true, beq_iff_eq, Bool.not_eq_eq_eq_not,
     Bool.not_true] at h
   obtain ⟨⟨⟨hf, ha⟩, ⟨⟨⟨hn1, hn2⟩, hn3⟩, _⟩⟩, hw⟩ := h
-  have hfresh : ∀ m o, freshOK t m o = true := fun m o => hf m (Method.mem_all m) o (Outcome.mem_all o)
-  have hafter : ∀ lm lo, (lm = .read ∨ lm = .write) → afterOK t lm lo = true := by
-    intro lm lo hlm
-    have := ha lo (Outcome.mem_all lo)
+  have hfresh : ∀ c m o, freshOK t c m o = true :=
+    fun c m o => hf c (Ctrl.mem_all c) m (Method.mem_all m) o (Outcome.mem_all o)
+  have hafter : ∀ c lm lo, (lm = .read ∨ lm = .write) → afterOK t c lm lo = true := by
+    intro c lm lo hlm
+    have := ha c (Ctrl.mem_all c) lo (Outcome.mem_all lo)
     rcases hlm with rfl | rfl
     · exact this.1
     · exact this.2
-  refine ⟨?_, ?_, ?_, ?_, ?_, ?_, ?_, hn1, hn2, hn3, hw⟩
-  · intro m o hd
-    have := hfresh m o
+  refine ⟨?_, ?_, ?_, ?_, ?_, ?_, ?_, hn1, hn2, hn3, fun c => hw c (Ctrl.mem_all c)⟩
+  · intro c m o hd
+    have := hfresh c m o
     simp [freshOK, hd] at this
     exact this.1.1.1
-  · intro o hd
-    have := hfresh .read o
+  · intro c o hd
+    have := hfresh c .read o
     simp [freshOK, hd] at this
     exact this.1.1.2
-  · intro o hd hnd
-    have := hfresh .read o
+  · intro c o hd hnd
+    have := hfresh c .read o
     simp [freshOK, hd, hnd] at this
     exact this.1.2
-  · intro o hd hb
-    have := hfresh .read o
+  · intro c o hd hb
+    have := hfresh c .read o
     simp [freshOK, hd, hb] at this
     exact this.2
   · intro lm lo hlm hd hs
-    have := hafter lm lo hlm
+    have := hafter .c0 lm lo hlm
     simp [afterOK, hd, hs] at this
     intro hnil
     exact this.1.1.1 hnil
-  · intro lm lo o hlm hd hs ho
-    have := hafter lm lo hlm
+  · intro c lm lo o hlm hd hs ho
+    have := hafter c lm lo hlm
     simp [afterOK, hd, hs] at this
     have := this.1.1.2 o ho
     exact ⟨this.1.1, this.1.2, this.2⟩
-  · intro lm lo o hlm hd hs hdo
-    have := hafter lm lo hlm
+  · intro c lm lo o hlm hd hs hdo
+    have := hafter c lm lo hlm
     simp [afterOK, hd, hs] at this
     have := this.1.2 o (Outcome.mem_all o)
     simpa [hdo] using this
@@ -73,12 +74,20 @@ theorem good_of_total {t : Transport} (h : mapTotal t) : Good t := by
 def InvSt (t : Transport) (st : TState) : Prop :=
   ∀ lm lo, st.lossBy = some (lm, lo) → (lm = .read ∨ lm = .write) ∧ domain t lm lo = true ∧ setsLoss t lo = true
 
-theorem invSt_init (t : Transport) (b : Bool) : InvSt t ⟨b, none⟩ := by
+theorem invSt_init (t : Transport) (b : Bool) (c : Ctrl) : InvSt t ⟨b, none, c⟩ := by
   intro lm lo h; simp at h
+
+theorem tNext_opened_eq (t : Transport) (st : TState) (m : Method) (o : Outcome) :
+    (tNext t st m o).opened = (tNext0 t st m o).opened := rfl
+
+theorem tNext_lossBy_eq (t : Transport) (st : TState) (m : Method) (o : Outcome) :
+    (tNext t st m o).lossBy = (tNext0 t st m o).lossBy := rfl
 
 theorem tNext_inv {t : Transport} {st : TState} {m : Method} {o : Outcome} (hi : InvSt t st)
     (hd : domain t m o = true) : InvSt t (tNext t st m o) := by
-  unfold tNext
+  suffices h : InvSt t (tNext0 t st m o) by
+    intro lm lo hl; exact h lm lo (by rw [← tNext_lossBy_eq]; exact hl)
+  unfold tNext0
   by_cases hop : st.opened = true
   · simp only [hop, Bool.not_true, Bool.false_eq_true, ↓reduceIte]
     by_cases hc : (st.lossBy.isNone && (m == .read || m == .write) && setsLoss t o) = true
@@ -100,13 +109,15 @@ theorem tNext_inv {t : Transport} {st : TState} {m : Method} {o : Outcome} (hi :
 
 theorem tNext_opened {t : Transport} {st : TState} {m : Method} {o : Outcome} (hm : m ≠ .close) :
     (tNext t st m o).opened = st.opened := by
-  unfold tNext
+  rw [tNext_opened_eq]
+  unfold tNext0
   by_cases hop : st.opened = true <;> simp [hop, hm]
   split <;> simp [hop]
 
 theorem tNext_lossBy_some {t : Transport} {st : TState} {m : Method} {o : Outcome}
     (h : st.lossBy.isSome = true) : (tNext t st m o).lossBy = st.lossBy := by
-  unfold tNext
+  rw [tNext_lossBy_eq]
+  unfold tNext0
   have : st.lossBy.isNone = false := by cases hl : st.lossBy <;> simp_all
   by_cases hop : st.opened = true <;> simp [hop, this]
   split <;> rfl
@@ -126,7 +137,8 @@ theorem tNext_sets {t : Transport} {st : TState} {m : Method} {o : Outcome} (hm 
   cases hl : st.lossBy with
   | some x => rw [tNext_lossBy_some (by simp [hl])]; simp [hl]
   | none =>
-    unfold tNext
+    rw [tNext_lossBy_eq]
+    unfold tNext0
     have hm' : (m == .read || m == .write) = true := by rcases hm with rfl | rfl <;> simp
     simp [hop, hl, hs, hm']
     split <;> simp
@@ -161,15 +173,15 @@ theorem read_act {t : Transport} (hg : Good t) {st : TState} (hi : InvSt t st) {
     cases hl : st.lossBy with
     | none =>
       simp only
-      refine ⟨hg.fresh_readOK o hd, ?_, hg.fresh_read o hd, by simp⟩
-      intro hb; exact ⟨trivial, trivial, hg.fresh_busy o hd hb⟩
+      refine ⟨hg.fresh_readOK _ o hd, ?_, hg.fresh_read _ o hd, by simp⟩
+      intro hb; exact ⟨trivial, trivial, hg.fresh_busy _ o hd hb⟩
     | some x =>
       obtain ⟨lm, lo⟩ := x
       simp only
       obtain ⟨hlm, hdl, hsl⟩ := hi lm lo hl
       have hmem := @effOutcome_mem t st lm lo o hl (hg.post_ne lm lo hlm hdl hsl)
-      obtain ⟨_, hok, hro⟩ := hg.post_read lm lo _ hlm hdl hsl hmem
-      generalize after2 t lm lo .read (effOutcome t st .read o) = a at hok hro
+      obtain ⟨_, hok, hro⟩ := hg.post_read st.ctrl lm lo _ hlm hdl hsl hmem
+      generalize after2 t st.ctrl lm lo .read (effOutcome t st .read o) = a at hok hro
       cases a <;> simp_all [Act.readLossOK', Act.readOK, Act.readLossOK]
       rename_i c; cases c <;> simp_all [Act.ok]
   · simp only [hop, Bool.not_false, ↓reduceIte]
@@ -182,13 +194,13 @@ theorem write_act {t : Transport} (hg : Good t) {st : TState} (hi : InvSt t st) 
   by_cases hop : st.opened = true
   · simp only [hop, Bool.not_true, Bool.false_eq_true, ↓reduceIte]
     cases hl : st.lossBy with
-    | none => exact hg.fresh_ok .write o hd
+    | none => exact hg.fresh_ok _ .write o hd
     | some x =>
       obtain ⟨lm, lo⟩ := x
       simp only
       obtain ⟨hlm, hdl, hsl⟩ := hi lm lo hl
       rw [effOutcome_write]
-      exact hg.post_write lm lo o hlm hdl hsl hd
+      exact hg.post_write _ lm lo o hlm hdl hsl hd
   · simp only [hop, Bool.not_false, ↓reduceIte]
     rw [hg.none_write]; rfl
 
@@ -422,7 +434,7 @@ theorem step_dead {t : Transport} (hg : Good t) {env : Env} (T : Nat) (cf : Cfg)
       | none =>
         rcases (hdead i hi).2 with hdat | hsl
         · exfalso
-          have := hg.write_data
+          have := hg.write_data st0.ctrl
           unfold tAct at hra; simp [hop, hl, hdat, this] at hra
         · right; exact tNext_sets (Or.inr rfl) hop hsl
     · left; rw [tNext_opened (by decide)]; simpa using hop
@@ -546,7 +558,7 @@ theorem isalive_dead {t : Transport} (ht : mapTotal t) (ha : aliveTotal t) {st :
         obtain ⟨hlm, hdl, hsl⟩ := hi lm lo hl
         unfold aliveTotal aliveTotalB at ha
         simp only [List.all_eq_true, Bool.and_eq_true, Bool.or_eq_true, Bool.not_eq_true', beq_iff_eq] at ha
-        have := ha lo (Outcome.mem_all lo)
+        have := ha st.ctrl (Ctrl.mem_all _) lo (Outcome.mem_all lo)
         rcases hlm with rfl | rfl
         · rcases this.1 with h1 | h1
           · simp [hdl, hsl] at h1
